@@ -262,8 +262,17 @@ pub fn apply_values(conf: Conf, name: &str, input: Value, args: Vec<Value>) -> R
     PROBED.with(|p| *p.borrow_mut() = None);
     match render(&tpl, &g)? {
         Err(e) => Ok(Err(format!("render: {e}"))),
-        Ok(_) => Ok(PROBED.with(|p| p.borrow_mut().take()).ok_or_else(|| "probe not reached".to_string())),
+        Ok(_) => match PROBED.with(|p| p.borrow_mut().take()) {
+            Some(v) => Ok(Ok(v)),
+            None => Err(chain_cut_short()),
+        },
     }
+}
+
+/// The render succeeded but the last filter of the chain (the harness's `probe`) never ran: the
+/// chain was not applied in full.  Reported like a panic so that every caller treats it as a failure.
+fn chain_cut_short() -> Panicked {
+    Panicked { what: "NOT A PANIC: the render succeeded but the filter chain ended before its last filter was applied @ crates/core/src/parser/filter_chain.rs:0".into() }
 }
 
 /// Apply a chain of filters left to right in ONE template.
@@ -287,7 +296,10 @@ pub fn apply_chain(conf: Conf, chain: &[(String, Vec<RV>)], input: &RV) -> R<RV>
     let r = with_parser(conf, |p| run(p, &src, &g))?;
     match r {
         Err(e) => Ok(Err(e)),
-        Ok(_) => Ok(PROBED.with(|p| p.borrow_mut().take()).ok_or_else(|| "probe not reached".to_string())),
+        Ok(_) => match PROBED.with(|p| p.borrow_mut().take()) {
+            Some(v) => Ok(Ok(v)),
+            None => Err(chain_cut_short()),
+        },
     }
 }
 
